@@ -166,7 +166,8 @@ MonC12(t) ==
         rs == t.runs[3]
         nh == t.runs[4]
         nerr == Len(lg.errfams)
-    IN IF ig.end # "eof" \/ lg.end # "eof" THEN "triv"
+    IN IF ig.end = "hang" \/ lg.end = "hang" THEN "triv"
+       ELSE IF ig.end # "eof" \/ lg.end # "eof" THEN "C12:rejected-frame-escaped-as-exception-under-ignore-or-log"
        ELSE IF ig.items # lg.items THEN "C12:ignore-and-log-deliver-different-items"
        ELSE IF nh.end = "eof" /\ nh.items # lg.items THEN "C12:handler-presence-changes-items"
        ELSE IF Len(ig.errfams) # 0 THEN "C12:handler-called-under-ignore"
